@@ -95,6 +95,19 @@ impl World {
                     || final(self).fs() == old(self).fs().insert(p.id, Node::Absent)
                     || (old(self).fs()[p.id] is Dir && final(self).fs() == old(self).fs().insert(p.id, Node::Damaged(old(self).fs()[p.id]->Dir_0))),
     { unimplemented!() }
+    /// ghost: the directory at path p has entries. Unknown to every contract (a staging directory after a failed generation may or may not be
+    /// empty), so code that relies on emptiness has to establish it.
+    pub uninterp spec fn nonempty(&self, p: u64) -> bool;
+    /// std::fs::remove_dir: removes an EMPTY directory. On a directory with entries it fails (ENOTEMPTY) and changes nothing — that is the
+    /// documented behaviour, not an I/O failure, so it is NOT recorded in rm_err and excuses nothing.
+    #[verifier::external_body]
+    pub fn remove_dir(&mut self, p: &Path) -> (r: Result<(), IoError>)
+        requires old(self).safe(old(self).fs()), old(self).safe(old(self).fs().insert(p.id, Node::Absent)),
+        ensures final(self).same_cfg(old(self)), final(self).gen_failed() == old(self).gen_failed(),
+                old(self).nonempty(p.id) ==> r.is_err() && final(self).fs() == old(self).fs() && final(self).rm_err() == old(self).rm_err(),
+                !old(self).nonempty(p.id) ==> final(self).rm_err() == (if r.is_err() { old(self).rm_err().insert(p.id) } else { old(self).rm_err() })
+                    && (r.is_ok() ==> final(self).fs() == old(self).fs().insert(p.id, Node::Absent)) && (r.is_err() ==> final(self).fs() == old(self).fs()),
+    { unimplemented!() }
     /// TB-8c create_staging_dir (circuit-builder lib.rs:163; not under contract): on success a FRESH, empty sibling directory
     /// `.<name>.staging-<pid>-<rand>` now exists (create_dir fails on an existing path). The ghost configuration names it: it
     /// is this publication's staging path, and its `.old` sibling is the moved-aside path. The three names are distinct by
